@@ -362,17 +362,17 @@ def coq_case(case):
     ops = []
     for op in case['ops']:
         if op[0] == 'setbuf':
-            ops.append('(SetBuffer %s)' % ctext(op[1]))
+            ops.append('(SetBuffer %s, false)' % ctext(op[1]))
         else:
             _, kind, pats, w, t0 = op
-            w = eff_w(case, w)
             ops.append('(Call {| ckind := %s; pats := %s; W := %s |} %s)' % (
-                'KExact' if kind == 'exact' else 'KRe', clist([coq_entry(p) for p in pats]), copt(w, cnat), cbool(t0)))
+                'KExact' if kind == 'exact' else 'KRe', clist([coq_entry(p) for p in pats]), copt(None if w == -1 else w, cnat), cbool(t0)))
+            ops[-1] = '(%s, %s)' % (ops[-1], cbool(w == -1))
     evs = []
     for e in case['script']:
         evs.append({'T': 'Timeout', 'E': 'Eof', 'X': 'Err'}.get(e) if e in ('T', 'E', 'X') else '(Data %s)' % ctext(e))
     init = case.get('init') or ('', '')
-    return '(%s, %s, {| pend := %s; buf := %s |})' % (clist(ops), clist(evs), ctext(init[0]), ctext(init[1]))
+    return '(%s, %s, %s, {| pend := %s; buf := %s |})' % (copt(case.get('sw'), cnat), clist(ops), clist(evs), ctext(init[0]), ctext(init[1]))
 
 
 def expected_V(case, obs):
